@@ -132,6 +132,17 @@ def semantic_texts(seed, quick):
         ('ident/caps-packets', 'root packet ORDER { u8 KIND, match KIND as BODY { 1 : LOGON, }, SUB ITEM, }\npacket LOGON { string USER, }\npacket SUB { u8 X, }'),
         ('ident/digits', 'root packet Order2 { u8 Kind3, match Kind3 as Body4 { 1 : Logon5, }, Sub6 Item7, }\npacket Logon5 { string User8, }\npacket Sub6 { u8 X9, }'),
     ]
+    rec += [
+        ('ident/underscores', 'root packet A { u8 _, u16 __, string _x, u8 x_, B _b, repeat B __bs, In_ { u8 _, }, }\npacket B { u8 a_b_c, u8 a__b, }'),
+        ('ident/underscore-packet', 'root packet _ { u8 K, match K as __ { 1 : _p, }, }\npacket _p { u8 _, }'),
+        ('ident/single-letters', 'root packet a { u8 b, c d, match b as e { 1 : c, }, repeat c, g { u8 h, }, }\npacket c { u8 f, }'),
+        ('ident/long', 'root packet %s { u8 %s, }' % ('P' + 'a' * 300, 'f' + 'b' * 300)),
+    ]
+    # every option with every kind of value the grammar allows (legal and illegal ones, the empty string, one character)
+    optvals = ['""', '"a"', '"ab"', '0', '7', '00', 'true', 'false', 'u8', 'u64', 'i16', 'f32', 'char', 'string', 'char[]', 'char[3]', 'zchar[0]', "' '", "'0'", "'\\x00'", '"\' \'"', '"u16"', '"true"']
+    for on in ['StringPrefixLenType', 'ArrayPrefixLenType', 'LittleEndian', 'FixedStringPadChar', 'FixedStringPadFromLeft', 'JavaPackage', 'GoPackage', 'GoModule', 'NoSuchOption', 'littleendian']:
+        for ov in optvals:
+            rec.append(('option-value/%s' % on, 'options { %s = %s; }\nroot packet A { char[4] X, string S, repeat u8 L, zchar[2] Z, }' % (on, ov)))
     out += rec
     bases = [p for p in gen.matrix_protos() if p.tag.startswith(('Ml', 'Mm', 'Md', 'Mo'))]
     rng = random.Random('%s/sem' % seed)
